@@ -203,8 +203,12 @@ impl Report {
         let mut seen_msgs: BTreeSet<String> = BTreeSet::new();
         // a compilation stopped by the CPU-time limit is a verdict only for the termination property (C17); for every
         // other check it means "could not be evaluated"
-        if prop != "C17" {
-            let (timeouts, rest): (Vec<Failure>, Vec<Failure>) = std::mem::take(&mut self.violations).into_iter().partition(|f| f.msg.contains("CPU-LIMIT"));
+        // so does a machine that ran out of disk space: tool trouble is never a verdict, for any property
+        {
+            let is_c17 = prop == "C17";
+            let (timeouts, rest): (Vec<Failure>, Vec<Failure>) = std::mem::take(&mut self.violations).into_iter().partition(|f| {
+                (!is_c17 && f.msg.contains("CPU-LIMIT")) || f.msg.contains("No space left on device") || f.msg.contains("os error 28") || f.msg.contains("Disk quota exceeded")
+            });
             self.violations = rest;
             for f in timeouts.iter().take(3) {
                 self.inconclusive.push(format!("not evaluated: {}", f.msg.chars().take(300).collect::<String>()));
